@@ -348,6 +348,58 @@ theorem cv_mean_zero (o : Oracles) (values : List Val) (s avg : Val) (hs : pySum
   unfold cvOfTotals
   simp [bind, Except.bind, hs, ha, hz, pure, Except.pure]
 
+/-! ### `stddev` is a real number: `0` below two values, otherwise exactly what `statistics.stdev` answers -/
+
+/-- the aggregate clause for `stddev` ("as documented": the sample deviation of CPython's `statistics.stdev`, `0` for fewer than two
+values): whenever `stddev` of a list has a value, that value is the int `0` (fewer than two values) or the very float the oracle
+`statistics.stdev` returns for the list — no other arithmetic is involved, so the result is always a REAL number on which `== 0`,
+`> 0`, `< t` can be evaluated (identical payments: `statistics.stdev` is exactly `0.0`, the merchant is in `stddev(payments) == 0`). -/
+theorem stddev_is_stdev (o : Oracles) (xs : List Val) (r : Val) (h : aggStddev o (.v (.list xs)) = .ok r) :
+    (xs.length < 2 ∧ r = .int 0) ∨ (2 ≤ xs.length ∧ ∃ b, o.stdev xs = some (.ok b) ∧ r = .flt b) := by
+  unfold aggStddev at h
+  simp only [lenOf, iterOf] at h
+  by_cases hn : xs.length < 2
+  · simp only [hn, if_true] at h
+    left; exact ⟨hn, by cases h; rfl⟩
+  · simp only [hn, if_false] at h
+    right
+    refine ⟨by omega, ?_⟩
+    unfold pyStdev at h
+    by_cases hnum : xs.all isNum = true
+    · simp only [hnum, if_true] at h
+      cases ho : o.stdev xs with
+      | none => simp [ho, need] at h
+      | some e =>
+        cases e with
+        | error c => simp [ho, pyErr] at h
+        | ok b => simp only [ho] at h; exact ⟨b, rfl, by cases h; rfl⟩
+    · simp [hnum, pyErr] at h
+
+/-- … and of any view value: a real number (int `0` or a float) -/
+theorem stddev_is_real (o : Oracles) (v : VVal) (r : Val) (h : aggStddev o v = .ok r) : r = .int 0 ∨ ∃ b, r = .flt b := by
+  unfold aggStddev at h
+  cases hl : lenOf v with
+  | none => simp [hl, pyErr] at h
+  | some n =>
+    simp only [hl] at h
+    by_cases hn : n < 2
+    · simp only [hn, if_true] at h; left; cases h; rfl
+    · simp only [hn, if_false] at h
+      cases hi : iterOf v with
+      | none => simp [hi, pyErr] at h
+      | some xs =>
+        simp only [hi] at h
+        unfold pyStdev at h
+        by_cases hnum : xs.all isNum = true
+        · simp only [hnum, if_true] at h
+          cases ho : o.stdev xs with
+          | none => simp [ho, need] at h
+          | some e =>
+            cases e with
+            | error c => simp [ho, pyErr] at h
+            | ok b => simp only [ho] at h; right; exact ⟨b, by cases h; rfl⟩
+        · simp [hnum, pyErr] at h
+
 /-! ### non-vacuity: the hypotheses are satisfiable and the statements are not empty -/
 
 section Examples
@@ -390,6 +442,11 @@ def cfgDerived : Config :=
    [⟨"Big2", .name "is_big", []⟩, ⟨"Small2", .unop .not (.name "Is_Big"), []⟩]⟩
 example : (classifyViews true noOracle lowerAscii cfgDerived 12 [mA, mB, mC]).map (fun kv => (kv.1, kv.2.map (·.name)))
     = [("Big2", ["B"]), ("Small2", ["A"])] := by decide +kernel
+
+-- `stddev`: one payment ⇒ the int 0; two identical payments whose `statistics.stdev` is +0.0 ⇒ that float (bit pattern 0)
+example : (match aggStddev noOracle (.v (.list [.int 5])) with | .ok (.int 0) => true | _ => false) = true := by decide +kernel
+example : (match aggStddev { noOracle with stdev := fun _ => some (.ok 0) } (.v (.list [.int 5, .int 5])) with
+    | .ok (.flt b) => b == 0 | _ => false) = true := by decide +kernel
 
 end Examples
 
